@@ -201,6 +201,65 @@ def run(ctx, model_ok, deep=False):
                         if rc2 != 0:
                             V("falsifier:cli-roundtrip", "token from jwt-generate (%s, %s) is rejected by jwt-verify with the same key (status %d)" % (kname, alg, rc2),
                               detail=err2.decode("latin-1")[-400:])
+        # ---------------- key2jwk: the same key in every legal PEM dress ------------------------------
+        def dress(pem, how, key, private):
+            if how == "bag-attributes":
+                return b"Bag Attributes\n    friendlyName: test\n    localKeyID: 01 02 03\nKey Attributes: <No Attributes>\n" + pem
+            if how == "blank-and-comment":
+                return b"\n\n# exported by some tool\n" + pem
+            if how == "crlf":
+                return pem.replace(b"\n", b"\r\n")
+            if how == "trailing-text":
+                return pem + b"\nsome trailing remark\n"
+            if how == "traditional":
+                src_ = os.path.join(d, "trad_in.pem")
+                open(src_, "wb").write(pem)
+                r_ = subprocess.run(["openssl", "pkey", "-in", src_, "-traditional"] + ([] if private else ["-pubin", "-pubout"]), capture_output=True)
+                return r_.stdout if r_.returncode == 0 and r_.stdout else None
+            if how == "ecparam-first":
+                if key.kind != "ec" or not private:
+                    return None
+                src_ = os.path.join(d, "trad_in.pem")
+                open(src_, "wb").write(pem)
+                crv = {"P-256": "prime256v1", "P-384": "secp384r1", "P-521": "secp521r1", "secp256k1": "secp256k1"}[key.crv]
+                p1 = subprocess.run(["openssl", "ecparam", "-name", crv], capture_output=True).stdout
+                p2 = subprocess.run(["openssl", "pkey", "-in", src_, "-traditional"], capture_output=True).stdout
+                return (p1 + p2) if p1 and p2 else None
+            return pem
+        dkeys = [(("rsa", 2048), K.gen_key("rsa", 2048, ctx.scratch)), (("ec", "P-384"), K.gen_key("ec", "P-384", ctx.scratch)),
+                 (("okp", "ED25519"), K.gen_key("okp", "ED25519", ctx.scratch))]
+        for spec, key in dkeys:
+            for private in (True, False):
+                want = key.jwk(private=private)
+                for how in ("plain", "bag-attributes", "blank-and-comment", "crlf", "trailing-text", "traditional", "ecparam-first"):
+                    data = dress(key.pem(private), how, key, private)
+                    if not data:
+                        continue
+                    # only dresses OpenSSL itself reads as this key are put to the tool
+                    chk = os.path.join(d, "dress_chk.pem")
+                    open(chk, "wb").write(data)
+                    if subprocess.run(["openssl", "pkey", "-in", chk, "-noout"] + ([] if private else ["-pubin"]), capture_output=True).returncode != 0:
+                        continue
+                    rc, out, err = tool(ctx, "key2jwk", ["-q", "-o", "-", chk])
+                    ev += 1
+                    distinct.add(("key2jwk-dress", spec, private, how, rc))
+                    ok, tree = jsonlib.loads(out)
+                    jwk = tree["keys"][0] if ok and isinstance(tree, dict) and isinstance(tree.get("keys"), list) and len(tree["keys"]) == 1 else None
+                    bad = None
+                    if rc != 0 or jwk is None:
+                        bad = "fails (status %d)" % rc
+                    elif jwk.get("kty") != want["kty"]:
+                        bad = "emits a JWK of kty %s" % jwk.get("kty")
+                    else:
+                        for mname, wv in want.items():
+                            if mname in ("kty", "crv") or (key.kind == "okp" and mname == "x" and private):
+                                continue
+                            gv = jwk.get(mname)
+                            if not isinstance(gv, str) or int.from_bytes(b64d(gv), "big") != int.from_bytes(b64d(wv), "big"):
+                                bad = "emits a JWK whose member %s does not denote the key's value" % mname
+                    if bad:
+                        V("falsifier:cli-key2jwk", "key2jwk on a %s %s key in PEM dress '%s' (which openssl reads as that key) %s" % (
+                            spec, "private" if private else "public", how, bad), ["# key2jwk -q -o - <%s key, %s>" % (spec, how)], detail=err.decode("latin-1")[-300:])
         # ---------------- key2jwk / jwk2key ---------------------------------------------------------
         specs = [("rsa", 2048), ("rsapss", 2048), ("ec", "P-384"), ("ec", "P-521"), ("ec", "secp256k1"), ("okp", "ED25519"), ("okp", "ED448")]
         conv = [(s_, K.gen_key(*s_, workdir=ctx.scratch)) for s_ in specs]
